@@ -6,3 +6,14 @@ import PauLieVerif.Model.CmdPS
 import PauLieVerif.Generated.Tables
 import PauLieVerif.Proofs.Tie
 import PauLieVerif.Model.Closure
+import PauLieVerif.Model.Graph
+import PauLieVerif.Model.CmdGraph
+import PauLieVerif.Spec.Clo
+import PauLieVerif.Proofs.Closure
+import PauLieVerif.Spec.PauliMatrix
+import PauLieVerif.Proofs.C04Lemmas
+import PauLieVerif.Properties.C04
+import PauLieVerif.Proofs.C18Lemmas
+import PauLieVerif.Properties.C18
+-- import PauLieVerif.Proofs.C17Lemmas
+-- import PauLieVerif.Properties.C17
